@@ -242,9 +242,11 @@ func (db *Center) SuffrageProofByBlockHeight(height base.Height) (base.SuffrageP
 					return j, true, nil
 				}
 			}
-		}
 
-		lastheight = temps[len(temps)-1].Height() - 1
+			// NOTE no proof in temps up to height; the last proof of permanent
+			// database is the one
+			lastheight = temps[len(temps)-1].Height() - 1
+		}
 	}
 
 	proof, found, err := db.perm.SuffrageProofByBlockHeight(lastheight)
